@@ -43,7 +43,13 @@ struct Cb {
 #define THREADING VThreading
 #define INSTRUMENTED_CV 1
 #endif
+#ifdef FILTERS
+// C10 "same listeners and filters in the same order": dispatcher / queue with MixinFilter; filters observe and rewrite the argument
+#include "eventpp/mixins/mixinfilter.h"
+struct Pol { using Threading = THREADING; using Callback = Cb; using Mixins = eventpp::MixinList<eventpp::MixinFilter>; };
+#else
 struct Pol { using Threading = THREADING; using Callback = Cb; };
+#endif
 struct HPol { using Threading = THREADING; };
 using HT = eventpp::HeterTuple<void(uint32_t), void(uint32_t, uint32_t)>;
 
@@ -67,12 +73,13 @@ struct Model {
 	bool alive[NO];
 	uint32_t ids[NO][MAXL]; int n[NO];
 	uint32_t pend[NO][MAXL]; int np[NO];      // queues: pending payloads
+	uint32_t fids[NO][MAXL]; int nf[NO];      // FILTERS: filters in the order they were added
 };
 struct G { alignas(16) unsigned char store[NO][sizeof(T)]; Model m; uint32_t nextid; T::Handle h[2]; int hown[2]; uint32_t hid[2]; };
 static G * g;
 static T * obj(int i) { return reinterpret_cast<T *>(g->store[i]); }
 
-enum { COV_COPY_CTOR = 0, COV_MOVE_CTOR, COV_COPY_ASSIGN, COV_MOVE_ASSIGN, COV_SWAP, COV_SELF_ASSIGN, COV_SELF_SWAP, COV_COPY_THEN_DIVERGE, COV_QUEUE_COPY_PENDING, COV_COPY_IN_LISTENER, COV_COPY_UNDER_DQN, COV_N };
+enum { COV_COPY_CTOR = 0, COV_MOVE_CTOR, COV_COPY_ASSIGN, COV_MOVE_ASSIGN, COV_SWAP, COV_SELF_ASSIGN, COV_SELF_SWAP, COV_COPY_THEN_DIVERGE, COV_QUEUE_COPY_PENDING, COV_COPY_IN_LISTENER, COV_COPY_UNDER_DQN, COV_FILTERS_DIVERGE, COV_N };
 
 #if OBJ == 0
 static T * g_adder_target = nullptr;
@@ -129,6 +136,14 @@ static void check_invoke(int i, int which)
 	if(which) obj(i)->dispatch(EV, a, b); else obj(i)->dispatch(EV, a);
 #endif
 	int k = 0;
+#ifdef FILTERS
+	// the filters run first, in the order they were added, each seeing the argument as its predecessors left it; the listeners see the result
+	for(int j = 0; j < m.nf[i]; j++) {
+		vf_assert(k < g_tr.n && g_tr.e[k].id == 1000u + m.fids[i][j] && g_tr.e[k].a == a, 140);
+		if(k < g_tr.n) vf_obs(1 + i, g_tr.e[k].id);
+		a += m.fids[i][j]; k++;
+	}
+#endif
 	for(int j = 0; j < m.n[i]; j++) {
 #if IS_HETER
 		if((int)(m.ids[i][j] & 1) != which) continue;
@@ -183,12 +198,13 @@ static void observe()
 	}
 }
 
-static void destroy(int i) { obj(i)->~T(); g->m.alive[i] = false; g->m.n[i] = 0; g->m.np[i] = 0; }
+static void destroy(int i) { obj(i)->~T(); g->m.alive[i] = false; g->m.n[i] = 0; g->m.np[i] = 0; g->m.nf[i] = 0; }
 static int free_slot() { for(int i = 0; i < NO; i++) if(! g->m.alive[i]) return i; return -1; }
 static void copy_model(int from, int to, bool with_pending)
 {
 	Model & m = g->m;
 	m.n[to] = m.n[from]; for(int k = 0; k < m.n[from]; k++) m.ids[to][k] = m.ids[from][k];
+	m.nf[to] = m.nf[from]; for(int k = 0; k < m.nf[from]; k++) m.fids[to][k] = m.fids[from][k];
 	if(with_pending) { m.np[to] = m.np[from]; for(int k = 0; k < m.np[from]; k++) m.pend[to][k] = m.pend[from][k]; }
 }
 
@@ -228,13 +244,29 @@ extern "C" void harness()
 #endif
 	g->hid[1] = g->nextid; g->hown[1] = 0; g->h[1] = prepend(0, g->nextid); for(int k = m.n[0]; k > 0; k--) m.ids[0][k] = m.ids[0][k - 1]; m.ids[0][0] = g->nextid++; m.n[0]++;
 
+#ifdef FILTERS
+	{ uint32_t f = g->nextid++; obj(0)->appendFilter([f](uint32_t & a) { g_tr.add(1000u + f, a, 0); a += f; return true; }); m.fids[0][m.nf[0]++] = f; }
+#endif
 	observe();      // also instantiates, empty, the per-prototype sub-list of the prototype nobody listens to yet (heterogeneous classes)
 	for(int step = 0; step < KK; step++) {
+#ifdef FILTERS
+		const unsigned nk = (OBJ == 2 ? 11 : 7);
+		unsigned kind = vf_choose(nk + 2);
+#else
 		unsigned kind = vf_choose(OBJ == 2 ? 11 : (IS_QUEUE ? 9 : 7));
+#endif
 		unsigned na = 0; int al[NO];
 		for(int i = 0; i < NO; i++) if(m.alive[i]) al[na++] = i;
 		int i = al[vf_choose(na)];
 		if(kind == 0) { if(m.n[i] < MAXL) { add(i, g->nextid); m.ids[i][m.n[i]++] = g->nextid++; } }
+#ifdef FILTERS
+		else if(kind == nk) {             // add a filter (to a copy or an original: later changes to either never affect the other)
+			if(m.nf[i] < MAXL) { uint32_t f = g->nextid++; obj(i)->appendFilter([f](uint32_t & a) { g_tr.add(1000u + f, a, 0); a += f; return true; }); m.fids[i][m.nf[i]++] = f; }
+		}
+		else if(kind == nk + 1) {         // remove the first filter ... there is no handle in a copy: add one and remove it again through its handle, the others stay
+			if(m.nf[i] < MAXL) { auto fh = obj(i)->appendFilter([](uint32_t &) { return false; }); bool r = obj(i)->removeFilter(fh); vf_assert(r, 141); }
+		}
+#endif
 		else if(kind == 1) {
 #if ! IS_HETER
 			// remove the first listener of object i (through the helper: copies have no handles of their own)
@@ -270,6 +302,7 @@ extern "C" void harness()
 				new (g->store[j]) T(std::move(*obj(i))); m.alive[j] = true; copy_model(i, j, false); m.np[j] = 0;
 				for(int k = 0; k < 2; k++) if(g->hown[k] == i) g->hown[k] = j;
 				m.n[i] = 0;            // the listeners are transferred; the source stays valid (and, for queues, keeps its pending events)
+				m.nf[i] = 0;
 				vf_cover(COV_MOVE_CTOR);
 			}
 		}
@@ -280,7 +313,7 @@ extern "C" void harness()
 		}
 		else if(kind == 5) {              // move-assign i -> j (j != i)
 			int j = al[vf_choose(na)];
-			if(j != i) { *obj(j) = std::move(*obj(i)); for(int k = 0; k < 2; k++) { if(g->hown[k] == j) g->hown[k] = -1; else if(g->hown[k] == i) g->hown[k] = j; } copy_model(i, j, false); m.n[i] = 0; vf_cover(COV_MOVE_ASSIGN); }
+			if(j != i) { *obj(j) = std::move(*obj(i)); for(int k = 0; k < 2; k++) { if(g->hown[k] == j) g->hown[k] = -1; else if(g->hown[k] == i) g->hown[k] = j; } copy_model(i, j, false); m.n[i] = 0; m.nf[i] = 0; vf_cover(COV_MOVE_ASSIGN); }
 		}
 		else if(kind == 6) {              // swap(i, j) (j may be i)
 			int j = al[vf_choose(na)];
@@ -294,6 +327,9 @@ extern "C" void harness()
 				for(int k = 0; k < tn; k++) tmp[k] = m.ids[i][k];
 				m.n[i] = m.n[j]; for(int k = 0; k < m.n[j]; k++) m.ids[i][k] = m.ids[j][k];
 				m.n[j] = tn; for(int k = 0; k < tn; k++) m.ids[j][k] = tmp[k];
+				tn = m.nf[i]; for(int k = 0; k < tn; k++) tmp[k] = m.fids[i][k];
+				m.nf[i] = m.nf[j]; for(int k = 0; k < m.nf[j]; k++) m.fids[i][k] = m.fids[j][k];
+				m.nf[j] = tn; for(int k = 0; k < tn; k++) m.fids[j][k] = tmp[k];
 				for(int k = 0; k < 2; k++) { if(g->hown[k] == i) g->hown[k] = j; else if(g->hown[k] == j) g->hown[k] = i; }
 				vf_cover(COV_SWAP);
 			} else vf_cover(COV_SELF_SWAP);
@@ -330,17 +366,24 @@ extern "C" void harness()
 			bool r = obj(i)->process();
 			vf_assert(r == (m.np[i] > 0), 128);
 			int k = 0;
-			for(int e = 0; e < m.np[i]; e++) for(int j = 0; j < m.n[i]; j++) {
+			for(int e = 0; e < m.np[i]; e++) {
+				uint32_t a = m.pend[i][e];
+#ifdef FILTERS
+				for(int j = 0; j < m.nf[i]; j++) { vf_assert(k < g_tr.n && g_tr.e[k].id == 1000u + m.fids[i][j] && g_tr.e[k].a == a, 142); a += m.fids[i][j]; k++; }
+#endif
+				for(int j = 0; j < m.n[i]; j++) {
 #if IS_HETER
 				if(m.ids[i][j] & 1) continue;
 #endif
-				vf_assert(k < g_tr.n && g_tr.e[k].id == m.ids[i][j] && g_tr.e[k].a == m.pend[i][e], 129); k++;
+				vf_assert(k < g_tr.n && g_tr.e[k].id == m.ids[i][j] && g_tr.e[k].a == a, 129); k++;
+				}
 			}
 			vf_assert(g_tr.n == k, 130);
 			m.np[i] = 0;
 		}
 #endif
 		for(int x = 0; x < NO; x++) for(int y = x + 1; y < NO; y++) if(m.alive[x] && m.alive[y] && m.n[x] != m.n[y]) vf_cover(COV_COPY_THEN_DIVERGE);
+		for(int x = 0; x < NO; x++) for(int y = x + 1; y < NO; y++) if(m.alive[x] && m.alive[y] && m.nf[x] != m.nf[y]) vf_cover(COV_FILTERS_DIVERGE);
 		observe();
 #if defined(TRACKED) && ! IS_HETER
 		{ int want = 0; for(int x = 0; x < NO; x++) if(m.alive[x]) want += m.n[x]; vf_assert(g_live_cb == want, 138); vf_assert(g_bad_cb == 0, 139); }   // a removed callback is released at once, in copies too
